@@ -61,6 +61,35 @@ pub fn expand_self<T: VisitableMut + Clone>(input: &T, to: &Type) -> T {
     input
 }
 
+/// The tokens of `input`, with the invisible groups that surround `macro_rules!` fragments turned into
+/// parentheses wherever they are nested in something larger.
+///
+/// rustc does not treat such a group as parentheses when it parses the output of a procedural macro:
+/// `$e * 2` with `$e = 1 + 2` would be read as `1 + 2 * 2`.
+pub fn parenthesize_fragments(input: proc_macro2::TokenStream) -> proc_macro2::TokenStream {
+    use proc_macro2::{Delimiter, Group, TokenStream, TokenTree};
+    fn convert(input: TokenStream, nested: bool) -> TokenStream {
+        let alone = !nested && input.clone().into_iter().count() == 1;
+        input
+            .into_iter()
+            .map(|t| match t {
+                TokenTree::Group(g) => {
+                    let delimiter = match g.delimiter() {
+                        Delimiter::None if !alone => Delimiter::Parenthesis,
+                        d => d,
+                    };
+                    let mut new =
+                        Group::new(delimiter, convert(g.stream(), delimiter != Delimiter::None));
+                    new.set_span(g.span());
+                    TokenTree::Group(new)
+                }
+                t => t,
+            })
+            .collect()
+    }
+    convert(input, false)
+}
+
 /// `ty` in a position where a `+` would be ambiguous (`&dyn A + B`, `&'a dyn A + B`).
 pub fn atomic_type(ty: &Type) -> Type {
     let ambiguous = match ty {
